@@ -42,7 +42,7 @@ def cases(tier, seed):
         for c in range(nchunk):
             out.append(dict(id="plan:%s:%d" % (case, c), kind="plan", case=case, tf=tf, base=b, nrand=(2 if tier == "quick" else 30),
                             fresh=(1 if tier == "quick" else 6), chunk=c, nchunk=nchunk, timeout=1800))
-    for case, tf in (bases[:2] if tier == "quick" else bases):
+    for case in (RESET_CASES[:5] if tier == "quick" else RESET_CASES):
         out.append(dict(id="reset:%s" % case, kind="reset", case=case))
     return out
 
@@ -286,26 +286,45 @@ def run_plan(spec, res):
                           worst_over_bound=res.obs.get("max_final_difference_over_bound"), bit_identical=res.obs.get("bit_identical_continuations", 0))
 
 
+RESET_CASES = ["kundur/kundur_full.xlsx", "ieee14/ieee14_fault.xlsx", "ieee14/ieee14.raw", "ieee39/ieee39_full.xlsx", "5bus/pjm5bus.xlsx",
+               "wecc/wecc_full.xlsx", "npcc/npcc.xlsx", "matpower/case118.m", "ieee14/ieee14_pvd1.xlsx", "kundur/kundur_vsc.xlsx"]
+
+
 def run_reset(spec, res):
+    """Histories of PFlow.run() and System.reset() on one System (before any dynamic initialisation: reset() is documented
+    to refuse afterwards).  Every power flow of the history must reproduce the first solution."""
     from vf import au
+    rng = rng_for(spec.get("seed", 0), PROPERTY, 9, abs(hash(spec["case"])) % 9973)
     ss = au.load(spec["case"])
     ok1 = ss.PFlow.run()
+    if not ok1:
+        res.inconc("first power flow failed")
+        return
     v1 = np.concatenate([ss.Bus.v.v, ss.Bus.a.v]).copy()
-    ss.TDS.config.tf = 0.5
-    ss.TDS.config.no_tqdm = 1
-    ss.TDS.run()
-    ss.reset()
-    ok2 = ss.PFlow.run()
-    v2 = np.concatenate([ss.Bus.v.v, ss.Bus.a.v])
-    res.count("reset_checks")
-    d = float(np.max(np.abs(v1 - v2)))
-    res.maxobs("max_pf_difference_after_reset", d)
-    if not (ok1 and ok2) or d > 1e-12:
-        res.violate("reset_changes_pf", "%s: after reset() the power flow differs from the first solution by %.3e (converged %s/%s)" % (
-            spec["case"], d, ok1, ok2))
+    n1 = int(ss.PFlow.niter)
+    hist = ["pf"]
+    for step in range(int(rng.integers(2, 6))):
+        op = ["reset", "reset", "pf", "reset+reset"][int(rng.integers(0, 4))]
+        if op.startswith("reset"):
+            for _ in range(op.count("reset")):
+                ss.reset()
+                res.count("resets")
+            hist.append(op)
+            if float(ss.dae.t) >= 0:
+                res.count("resets_leaving_nonnegative_time")      # observation only; the verdict is the solution below
+        ok2 = ss.PFlow.run()
+        hist.append("pf")
+        v2 = np.concatenate([ss.Bus.v.v, ss.Bus.a.v])
+        res.count("reset_checks")
+        d = float(np.max(np.abs(v1 - v2))) if ok2 and v1.shape == v2.shape else float("nan")
+        res.maxobs("max_pf_difference_after_reset", d if np.isfinite(d) else 1e9)
+        if not ok2 or not d <= 1e-10:
+            res.violate("reset_changes_pf", "%s: history %s: the power flow differs from the first solution by %.3e (converged %s, "
+                        "iterations %d vs %d)" % (spec["case"], hist, d, ok2, int(ss.PFlow.niter), n1))
+            break
     res.sig = "reset:" + spec["case"]
-    res.nontrivial = True
-    res.sample = dict(case=spec["case"], difference=d)
+    res.nontrivial = res.obs.get("resets", 0) >= 1
+    res.sample = dict(case=spec["case"], history=hist, difference=res.obs.get("max_pf_difference_after_reset"))
 
 
 def run_case(spec):
